@@ -10,7 +10,7 @@ def U(pkg, run, quick, thorough, **kw):
     return d
 
 
-HOOK_COMMITS = ["7d5fc3e", "46899cc"]
+HOOK_COMMITS = ["7d5fc3e", "46899cc", "b1e6abc"]
 
 # Properties without a registered check yet (kept current; see DESIGN.md).
 NOT_APPLICABLE = {pid: "check not built yet in this round (planned, DESIGN.md section 4)" for pid in
@@ -70,6 +70,27 @@ CHECKS = {
         "assumptions": _SEM_ASSUME,
         "units": [U("props/run", "TestRunSemantics", (700, 14), (12000, 15), env={"VERIF_STATS_PROP": "C03"})],
         "floors": {"quick": {"disabled-true": 150, "map-over-empty": 30, "chunks:0": 100, "chunks:11": 50}},
+    },
+    "C11": {
+        "level": "exploration",
+        "engine": "E1",
+        "needs_bins": [],
+        "technique": "property-based testing (rapid): injectivity + parse round trip of fork / journal names over generated Unicode key sets; end-to-end mapped runs over adversarial keys and lengths against the reference model",
+        "level_text": ("Unit level (verif-tag exports): for generated key sets (dots, slashes, percent signs, spaces, control and non-ASCII characters, already-encoded looking text, names of "
+                       "metadata files) distinct keys give distinct directory and journal names, and the journal file name of (node, fork, chunk, attempt, file) parses back to exactly "
+                       "those parts and cannot be taken for an array index. End to end (E1): map calls of a (splitting or plain) stage over literal maps with such keys, literal arrays of "
+                       "length 1..101, and run-time maps / arrays; chunk counts {1,2,9,10,11}; the pipestance must complete (deterministic stall predicate) and every fork must receive "
+                       "and return its own element (C01/C03 machinery with key-dependent values). Exploration."),
+        "level_note": "Node.find/getFork routing is exercised only end to end (they need a live node tree); keys are <= 60 bytes; '$' is excluded from program text because mrp expands environment variables in invocation source.",
+        "rule": ("unit: 2-8 distinct keys from a hostile alphabet / pool x node name x chunk index x attempt id x metadata file name; non-trivial: a key contains '.', '/', '%', space or is empty. "
+                 "e2e: one mapped call per program, source kind in {static map, static array, run-time map, run-time array}; non-trivial: a key outside [a-z0-9], a length >= 10 or a run-time source; "
+                 "distinct by hash(program, schedule)."),
+        "assumptions": _SEM_ASSUME,
+        "units": [
+            U("props/sys", "TestC11Names", (30000, 2), (500000, 4)),
+            U("props/run", "TestC11Forks", (350, 10), (6000, 12)),
+        ],
+        "floors": {"quick": {"names": 30000, "source:static-map": 800, "source:dynamic-map": 300, "source:dynamic-array": 300, "len:101": 30, "split-stage": 800}},
     },
     "C12": {
         "level": "exploration",
